@@ -203,6 +203,16 @@ pub fn int_values(ty: Ty, len: std::ops::Range<usize>, allow_wide: bool) -> Boxe
         prop_oneof![
             3 => proptest::collection::vec(int_value(ty, IntClass::Tiny), l.clone()),
             3 => proptest::collection::vec(int_value(ty, IntClass::Small), l.clone()),
+            // one value repeated with a few others mixed in (deep quickselect recursions)
+            2 => (proptest::collection::vec(Just(clip(2, ty.int_range().0, ty.int_range().1)), l.clone()), proptest::collection::vec((any::<u16>(), int_value(ty, IntClass::Small)), 0..6)).prop_map(|(mut v, extra)| {
+                let n = v.len();
+                for (pos, x) in extra {
+                    if n > 0 {
+                        v[pos as usize % n] = x;
+                    }
+                }
+                v
+            }),
             2 => proptest::collection::vec(int_value(ty, IntClass::Full), l.clone()),
             2 => proptest::collection::vec(int_value(ty, IntClass::Extremes), l.clone()),
             // closely spaced values at a huge base (near MAX, near MAX/2, near MIN)
